@@ -1,15 +1,32 @@
 package cpusuppress
 
 // Verification harness for C12, second driver (injected by `go test -overlay`; see /verif/specs/CgroupTree).
-// It builds a best-effort cgroup subtree (BE qos dir / pod dirs / container dirs) under a temp cgroup root and runs the
-// REAL CPUSuppress.applyCPUSetWithNonePolicy the way adjustByCPUSet calls it (old cpuset = the BE root's cpuset read
-// through the cgroup reader). The executor handed to CPUSuppress forwards every updater, one at a time and in the same
-// order, to the REAL ResourceUpdateExecutorImpl.UpdateBatch, and after each of them logs the projection of ALL
-// cpuset.cpus files plus the files whose mtime moved. Expected values are computed only by TLC. No oracle here.
+// It builds a best-effort cgroup subtree (BE qos dir / pod dirs / container dirs) under a temp cgroup root and rewrites it
+// over several rounds through the REAL top of the plugin, CPUSuppress.suppressBECPU(), i.e. through the real callers
+//   cpuset policy     adjustByCPUSet -> applyBESuppressCPUSet -> applyCPUSetWithNonePolicy, then recoverCFSQuotaIfNeed
+//   feature disabled  recoverCFSQuotaIfNeed, recoverCPUSetIfNeed
+//   cfsQuota policy   adjustByCfsQuota, recoverCPUSetIfNeed
+//   BECPUManager on   recoverCFSQuotaIfNeed, recoverCPUSetForBECPUManager
+// on ONE plugin object (so whatever it remembers between rounds is carried over) with mocked statesinformer / metric
+// cache, interleaved with steps of the environment: `external` (something else left other hierarchy-valid values in
+// the files), `restart` (a FRESH plugin object and executor on the same files), `expire` (cache entries gone).
+//
+// How a round is aimed at the cpuset the script names (input steering, nothing of it judges): the mock node has
+// 10*ncpu processors of which ncpu..10*ncpu-1 are reserved by the node annotation, so the BE pool is 0..ncpu-1 and the
+// "at most 10% of the node more per round" rule of adjustByCPUSet never cuts a step; an LSE pod holds the pool CPUs that
+// are NOT in the round's target and the node usage leaves exactly |target| CPUs to BE, so that every correct selection of
+// |target| out of the |target| eligible CPUs is the target. A round always asks for at least two CPUs: one-CPU targets
+// are run through applyCPUSetWithNonePolicy directly, the way adjustByCPUSet calls it (old cpuset = the BE root's).
+// The rounds that leave the cpuset policy run without the LSE pod: their target is the whole BE pool.
+//
+// The executor handed to CPUSuppress forwards every updater, one at a time and in the same order, to the REAL
+// ResourceUpdateExecutorImpl.UpdateBatch, and after each of them logs the projection of ALL cpuset.cpus files plus the
+// files whose mtime moved. Expected values are computed only by TLC. No oracle here.
 
 import (
 	"encoding/json"
 	"fmt"
+	"io"
 	"math/rand"
 	"os"
 	"path/filepath"
@@ -17,9 +34,23 @@ import (
 	"testing"
 	"time"
 
+	topov1alpha1 "github.com/k8stopologyawareschedwg/noderesourcetopology-api/pkg/apis/topology/v1alpha1"
+	promstorage "github.com/prometheus/prometheus/storage"
+	"go.uber.org/mock/gomock"
 	corev1 "k8s.io/api/core/v1"
+	"k8s.io/apimachinery/pkg/api/resource"
+	metav1 "k8s.io/apimachinery/pkg/apis/meta/v1"
+	"k8s.io/klog/v2"
+	"k8s.io/utils/pointer"
 
+	apiext "github.com/koordinator-sh/koordinator/apis/extension"
+	slov1alpha1 "github.com/koordinator-sh/koordinator/apis/slo/v1alpha1"
+	"github.com/koordinator-sh/koordinator/pkg/features"
+	"github.com/koordinator-sh/koordinator/pkg/koordlet/metriccache"
+	mockmetriccache "github.com/koordinator-sh/koordinator/pkg/koordlet/metriccache/mockmetriccache"
 	"github.com/koordinator-sh/koordinator/pkg/koordlet/resourceexecutor"
+	"github.com/koordinator-sh/koordinator/pkg/koordlet/statesinformer"
+	mockstatesinformer "github.com/koordinator-sh/koordinator/pkg/koordlet/statesinformer/mockstatesinformer"
 	koordletutil "github.com/koordinator-sh/koordinator/pkg/koordlet/util"
 	"github.com/koordinator-sh/koordinator/pkg/koordlet/util/system"
 	"github.com/koordinator-sh/koordinator/pkg/util/cache"
@@ -34,10 +65,144 @@ type c12sOp struct {
 	Par    []int   `json:"par,omitempty"`
 	Kind   string  `json:"kind,omitempty"`
 	Ver    int     `json:"ver,omitempty"`
+	NCPU   int     `json:"ncpu,omitempty"` // reset: the BE pool of the mock node is 0..ncpu-1 (default 4)
+	Lay    int     `json:"lay,omitempty"`  // reset: processor layout 1 = one thread per core, 2 = two (default: rotating)
 	Old    [][]int `json:"old,omitempty"`
 	Target [][]int `json:"target,omitempty"`
+	How    string  `json:"how,omitempty"` // begin: "" = "cpuset" | "disabled" | "cfsquota" | "becpumgr"
+	Q      int     `json:"q,omitempty"`   // begin how=cfsquota: CPUs left to BE by the node usage (default 2)
+	LSE    []int   `json:"lse,omitempty"` // begin, rounds that leave the cpuset policy: pool CPUs an LSE pod holds meanwhile (the
+	//                                         round's target is then the pool without them; not generated, scripts only)
 	Nodes  []int   `json:"nodes,omitempty"`
+	To     [][]int `json:"to,omitempty"` // external: the values something else leaves in the files
 }
+
+// ---------------------------------------------------------------- the plugin's surroundings (mocks; they only hand out inputs)
+
+type c12sEnv struct {
+	si *mockstatesinformer.MockStatesInformer
+	mc *mockmetriccache.MockMetricCache
+	// what the mocks return now
+	pods      []*statesinformer.PodMeta
+	topo      *topov1alpha1.NodeResourceTopology
+	node      *corev1.Node
+	slo       *slov1alpha1.NodeSLO
+	cpuInfo   *metriccache.NodeCPUInfo
+	nodeUsage float64 // cores
+	nodeKind  string
+}
+
+// metric query results: the node CPU usage is env.nodeUsage, every pod uses nothing
+type c12sResult struct {
+	metriccache.MetricMeta
+	env *c12sEnv
+}
+
+func (r *c12sResult) AddSeries(promstorage.Series) error { return nil }
+func (r *c12sResult) Count() int                         { return 1 }
+func (r *c12sResult) TimeRangeDuration() time.Duration   { return time.Minute }
+func (r *c12sResult) Value(metriccache.AggregationType) (float64, error) {
+	if r.GetKind() == r.env.nodeKind {
+		return r.env.nodeUsage, nil
+	}
+	return 0, nil
+}
+
+type c12sFactory struct{ env *c12sEnv }
+
+func (f *c12sFactory) New(meta metriccache.MetricMeta) metriccache.AggregateResult {
+	return &c12sResult{MetricMeta: meta, env: f.env}
+}
+
+type c12sQuerier struct{}
+
+func (c12sQuerier) Query(metriccache.MetricMeta, *metriccache.QueryHints, metriccache.MetricResult) error {
+	return nil
+}
+func (c12sQuerier) QueryAndClose(metriccache.MetricMeta, *metriccache.QueryHints, metriccache.MetricResult) error {
+	return nil
+}
+func (c12sQuerier) Close() {}
+
+func c12sNewEnv(t *testing.T) *c12sEnv {
+	e := &c12sEnv{}
+	ctrl := gomock.NewController(t)
+	e.si = mockstatesinformer.NewMockStatesInformer(ctrl)
+	e.mc = mockmetriccache.NewMockMetricCache(ctrl)
+	e.si.EXPECT().GetAllPods().DoAndReturn(func() []*statesinformer.PodMeta { return e.pods }).AnyTimes()
+	e.si.EXPECT().GetNodeTopo().DoAndReturn(func() *topov1alpha1.NodeResourceTopology { return e.topo }).AnyTimes()
+	e.si.EXPECT().GetNode().DoAndReturn(func() *corev1.Node { return e.node }).AnyTimes()
+	e.si.EXPECT().GetNodeSLO().DoAndReturn(func() *slov1alpha1.NodeSLO { return e.slo }).AnyTimes()
+	e.mc.EXPECT().Get(metriccache.NodeCPUInfoKey).DoAndReturn(func(interface{}) (interface{}, bool) { return e.cpuInfo, true }).AnyTimes()
+	e.mc.EXPECT().Querier(gomock.Any(), gomock.Any()).Return(c12sQuerier{}, nil).AnyTimes()
+	meta, err := metriccache.NodeCPUUsageMetric.BuildQueryMeta(nil)
+	if err != nil {
+		t.Fatal(err)
+	}
+	e.nodeKind = meta.GetKind()
+	prev := metriccache.DefaultAggregateResultFactory
+	metriccache.DefaultAggregateResultFactory = &c12sFactory{env: e}
+	t.Cleanup(func() { metriccache.DefaultAggregateResultFactory = prev })
+	return e
+}
+
+// the node of one segment: 10*ncpu processors, the BE pool 0..ncpu-1, the rest reserved by the node annotation
+func (e *c12sEnv) machine(ncpu int, ht bool) {
+	n := 10 * ncpu
+	info := &metriccache.NodeCPUInfo{}
+	for k := 0; k < n; k++ {
+		core := k
+		if ht {
+			core = k / 2
+		}
+		info.ProcessorInfos = append(info.ProcessorInfos, koordletutil.ProcessorInfo{CPUID: int32(k), CoreID: int32(core), SocketID: 0, NodeID: 0})
+	}
+	e.cpuInfo = info
+	e.node = &corev1.Node{
+		ObjectMeta: metav1.ObjectMeta{Name: "verif-node"},
+		Status: corev1.NodeStatus{
+			Capacity:    corev1.ResourceList{corev1.ResourceCPU: *resource.NewQuantity(int64(n), resource.DecimalSI)},
+			Allocatable: corev1.ResourceList{corev1.ResourceCPU: *resource.NewQuantity(int64(n), resource.DecimalSI)},
+		},
+	}
+	resv, _ := json.Marshal(map[string]string{"reservedCPUs": fmt.Sprintf("%d-%d", ncpu, n-1)})
+	e.topo = &topov1alpha1.NodeResourceTopology{ObjectMeta: metav1.ObjectMeta{Name: "verif-node",
+		Annotations: map[string]string{apiext.AnnotationNodeReservation: string(resv)}}}
+}
+
+// the inputs of one round: which way suppressBECPU goes, how many CPUs the usage leaves to BE, which pool CPUs an LSE pod holds
+func (e *c12sEnv) round(how string, beCPUs int, lse []int) {
+	n := len(e.cpuInfo.ProcessorInfos)
+	be := &corev1.Pod{
+		ObjectMeta: metav1.ObjectMeta{Namespace: "verif", Name: "be-1", UID: "uid-be-1", Labels: map[string]string{apiext.LabelPodQoS: "BE"}},
+		Status:     corev1.PodStatus{QOSClass: corev1.PodQOSBestEffort},
+	}
+	e.pods = []*statesinformer.PodMeta{{Pod: be, CgroupDir: "kubepods.slice/verif-elsewhere/be-1"}}
+	if len(lse) > 0 {
+		p := &corev1.Pod{
+			ObjectMeta: metav1.ObjectMeta{Namespace: "verif", Name: "lse-1", UID: "uid-lse-1", Labels: map[string]string{apiext.LabelPodQoS: "LSE"},
+				Annotations: map[string]string{apiext.AnnotationResourceStatus: fmt.Sprintf(`{"cpuset":"%s"}`, cpuset.NewCPUSet(lse...).String())}},
+			Status: corev1.PodStatus{QOSClass: corev1.PodQOSGuaranteed},
+		}
+		e.pods = append(e.pods, &statesinformer.PodMeta{Pod: p, CgroupDir: "kubepods.slice/verif-elsewhere/lse-1"})
+	}
+	policy := slov1alpha1.CPUSetPolicy
+	if how == "cfsquota" {
+		policy = slov1alpha1.CPUCfsQuotaPolicy
+	}
+	e.slo = &slov1alpha1.NodeSLO{Spec: slov1alpha1.NodeSLOSpec{ResourceUsedThresholdWithBE: &slov1alpha1.ResourceThresholdStrategy{
+		Enable:                      pointer.Bool(how != "disabled"),
+		CPUSuppressThresholdPercent: pointer.Int64(100),
+		CPUSuppressPolicy:           policy,
+	}}}
+	e.nodeUsage = float64(n - beCPUs)
+	if err := features.DefaultMutableKoordletFeatureGate.SetFromMap(map[string]bool{
+		string(features.BECPUSuppress): true, string(features.BECPUManager): how == "becpumgr"}); err != nil {
+		panic("c12s: " + err.Error())
+	}
+}
+
+// ---------------------------------------------------------------- observation
 
 // forwards to the real executor one updater at a time (UpdateBatch is a loop over independent updaters) and observes
 type c12sExec struct {
@@ -53,20 +218,24 @@ func (e *c12sExec) UpdateBatch(cacheable bool, updaters ...resourceexecutor.Reso
 }
 
 type c12sStats struct {
-	segs, rewrites, calls, writes, sameNodes, nonUniformOld int
+	segs, rewrites, calls, writes, sameNodes, nonUniformOld   int
+	viaRound, direct, leave, externals, restarts, afterLeave int
 }
 
 type c12sSeg struct {
 	t     *testing.T
 	rec   *vu.Recorder
+	env   *c12sEnv
 	par   []int
 	ver   int
+	ncpu  int
 	dirs  []string
 	paths []string
 	real  *resourceexecutor.ResourceUpdateExecutorImpl
 	r     *CPUSuppress
 	stop  chan struct{}
 	stats *c12sStats
+	left  bool // the last rewrite left the cpuset policy (counter only)
 }
 
 func c12sInts(a []int) []int {
@@ -74,6 +243,14 @@ func c12sInts(a []int) []int {
 		return []int{}
 	}
 	return a
+}
+
+func c12sRange(n int) []int {
+	out := make([]int, n)
+	for i := range out {
+		out[i] = i
+	}
+	return out
 }
 
 func (s *c12sSeg) project(i int) []int {
@@ -104,6 +281,13 @@ func (s *c12sSeg) arm(i int) {
 	}
 }
 
+func (s *c12sSeg) put(i int, v []int) {
+	if err := os.WriteFile(s.paths[i], []byte(cpuset.NewCPUSet(v...).String()), 0644); err != nil {
+		s.t.Fatal(err)
+	}
+	s.arm(i)
+}
+
 func (s *c12sSeg) afterCall() {
 	written := []int{}
 	for i := range s.par {
@@ -127,11 +311,39 @@ func (s *c12sSeg) afterCall() {
 	s.stats.writes += len(written)
 }
 
+// a fresh plugin object and a fresh executor (cold cache) on the files as they are
+func (s *c12sSeg) newPlugin() {
+	if s.stop != nil {
+		close(s.stop)
+	}
+	s.real = &resourceexecutor.ResourceUpdateExecutorImpl{
+		ResourceCache: cache.NewCache(100000*time.Hour, 100000*time.Hour),
+		Config:        &resourceexecutor.Config{ResourceForceUpdateSeconds: 1 << 30},
+	}
+	s.r = &CPUSuppress{
+		interval:               time.Second,
+		metricCollectInterval:  time.Second,
+		statesInformer:         s.env.si,
+		metricCache:            s.env.mc,
+		executor:               &c12sExec{ResourceUpdateExecutor: s.real, after: s.afterCall},
+		cgroupReader:           resourceexecutor.NewCgroupReader(),
+		suppressPolicyStatuses: map[string]suppressPolicyStatus{},
+	}
+	s.stop = make(chan struct{})
+	s.r.init(s.stop)
+}
+
 func (s *c12sSeg) reset(o c12sOp, idx int) {
 	if o.Ver != 1 && o.Ver != 2 {
 		o.Ver = 1 + (idx+int(vu.Seed()))%2
 	}
-	s.par, s.ver = o.Par, o.Ver
+	if o.NCPU <= 0 {
+		o.NCPU = 4
+	}
+	if o.Lay != 1 && o.Lay != 2 {
+		o.Lay = 1 + (idx/2)%2
+	}
+	s.par, s.ver, s.ncpu = o.Par, o.Ver, o.NCPU
 	system.UseCgroupsV2.Store(s.ver == 2)
 	res, err := system.GetCgroupResource(system.CPUSetCPUSName)
 	if err != nil {
@@ -156,23 +368,28 @@ func (s *c12sSeg) reset(o c12sOp, idx int) {
 		if err := os.MkdirAll(filepath.Dir(s.paths[i]), 0777); err != nil {
 			s.t.Fatal(err)
 		}
-		if err := os.WriteFile(s.paths[i], []byte(cpuset.NewCPUSet(o.Old[i]...).String()), 0644); err != nil {
-			s.t.Fatal(err)
-		}
-		s.arm(i)
+		s.put(i, o.Old[i])
 	}
-	s.real = &resourceexecutor.ResourceUpdateExecutorImpl{
-		ResourceCache: cache.NewCache(100000*time.Hour, 100000*time.Hour),
-		Config:        &resourceexecutor.Config{ResourceForceUpdateSeconds: 1 << 30},
+	// the BE root's CFS quota (the rounds that are not cpuset rounds read and write it; not a file of the subtree rewrite)
+	qres, err := system.GetCgroupResource(system.CPUCFSQuotaName)
+	if err != nil {
+		s.t.Fatal(err)
 	}
-	s.r = &CPUSuppress{
-		executor:               &c12sExec{ResourceUpdateExecutor: s.real, after: s.afterCall},
-		cgroupReader:           resourceexecutor.NewCgroupReader(),
-		suppressPolicyStatuses: map[string]suppressPolicyStatus{},
+	qpath, qval := qres.Path(beRoot), "-1"
+	if s.ver == 2 {
+		qval = "max 100000"
 	}
-	s.stop = make(chan struct{})
-	s.r.init(s.stop)
-	s.rec.Reset(vu.Ev{"driver": "suppress", "par": s.par, "kind": "cpuset", "file": "cpuset.cpus", "ver": s.ver, "old": s.snapshot()})
+	if err := os.MkdirAll(filepath.Dir(qpath), 0777); err != nil {
+		s.t.Fatal(err)
+	}
+	if err := os.WriteFile(qpath, []byte(qval), 0644); err != nil {
+		s.t.Fatal(err)
+	}
+	s.env.machine(s.ncpu, o.Lay == 2)
+	s.env.round("cpuset", s.ncpu, nil)
+	s.newPlugin()
+	s.rec.Reset(vu.Ev{"driver": "suppress", "par": s.par, "kind": "cpuset", "file": "cpuset.cpus", "ver": s.ver, "ncpu": s.ncpu, "lay": o.Lay,
+		"cpus": c12sRange(s.ncpu), "old": s.snapshot()})
 	s.stats.segs++
 	for i := range s.par {
 		if fmt.Sprint(c12sInts(o.Old[i])) != fmt.Sprint(c12sInts(o.Old[0])) {
@@ -184,14 +401,14 @@ func (s *c12sSeg) reset(o c12sOp, idx int) {
 
 // cgroup v2: the reader takes a cgroup's cpuset from cpuset.cpus.effective; the harness plays the kernel here:
 // effective = cpuset.cpus restricted to the parent's effective set, or the parent's effective set while cpuset.cpus is
-// empty; above the BE qos cgroup all CPUs of the mock machine (0-3) are available
+// empty; above the BE qos cgroup the CPUs that are not reserved (the BE pool 0..ncpu-1) are available
 func (s *c12sSeg) kernelEffective() {
 	if s.ver != 2 {
 		return
 	}
 	eff := make([]cpuset.CPUSet, len(s.par))
 	for i := range s.par {
-		up := cpuset.NewCPUSet(0, 1, 2, 3)
+		up := cpuset.NewCPUSet(c12sRange(s.ncpu)...)
 		if s.par[i] != 0 {
 			up = eff[s.par[i]-1]
 		}
@@ -209,7 +426,18 @@ func (s *c12sSeg) kernelEffective() {
 }
 
 func (s *c12sSeg) begin(o c12sOp) {
+	if len(o.Target) != len(s.par) {
+		s.t.Fatalf("c12s: target has %d values for %d nodes", len(o.Target), len(s.par))
+	}
 	cpus := o.Target[0]
+	how := o.How
+	if how == "" {
+		how = "cpuset"
+	}
+	via := "suppressBECPU"
+	if how == "cpuset" && len(cpus) < 2 {
+		via = "applyCPUSetWithNonePolicy"
+	}
 	s.kernelEffective()
 	cur := s.snapshot()
 	for i := range s.par {
@@ -217,18 +445,52 @@ func (s *c12sSeg) begin(o c12sOp) {
 			s.stats.sameNodes++
 		}
 	}
-	s.rec.Emit(vu.Ev{"op": "begin", "target": o.Target})
-	// as adjustByCPUSet does: the old cpuset is the one of the BE qos cgroup
-	oldCPUS, err := s.r.cgroupReader.ReadCPUSet(koordletutil.GetPodQoSRelativePath(corev1.PodQOSBestEffort))
-	if err != nil {
-		s.t.Fatal(err)
-	}
-	beCPUSet := make([]int32, len(cpus))
-	for i, c := range cpus {
-		beCPUSet[i] = int32(c)
-	}
-	if err := s.r.applyCPUSetWithNonePolicy(beCPUSet, oldCPUS.ToInt32Slice()); err != nil {
-		s.t.Fatal(err)
+	s.rec.Emit(vu.Ev{"op": "begin", "target": o.Target, "how": how, "q": o.Q, "lse": c12sInts(o.LSE), "via": via})
+	switch {
+	case how == "cpuset" && via == "suppressBECPU":
+		in := map[int]bool{}
+		for _, c := range cpus {
+			in[c] = true
+		}
+		var lse []int
+		for c := 0; c < s.ncpu; c++ {
+			if !in[c] {
+				lse = append(lse, c)
+			}
+		}
+		s.env.round(how, len(cpus), lse)
+		s.r.suppressBECPU()
+		s.stats.viaRound++
+		if s.left {
+			s.stats.afterLeave++
+		}
+		s.left = false
+	case how == "cpuset":
+		// as adjustByCPUSet does: the old cpuset is the one of the BE qos cgroup
+		oldCPUS, err := s.r.cgroupReader.ReadCPUSet(koordletutil.GetPodQoSRelativePath(corev1.PodQOSBestEffort))
+		if err != nil {
+			s.t.Fatal(err)
+		}
+		beCPUSet := make([]int32, len(cpus))
+		for i, c := range cpus {
+			beCPUSet[i] = int32(c)
+		}
+		if err := s.r.applyCPUSetWithNonePolicy(beCPUSet, oldCPUS.ToInt32Slice()); err != nil {
+			s.t.Fatal(err)
+		}
+		s.stats.direct++
+		s.left = false
+	case how == "disabled" || how == "cfsquota" || how == "becpumgr":
+		q := o.Q
+		if q <= 0 {
+			q = 2
+		}
+		s.env.round(how, q, o.LSE)
+		s.r.suppressBECPU()
+		s.stats.leave++
+		s.left = true
+	default:
+		s.t.Fatalf("c12s: unknown how %q", how)
 	}
 	s.rec.Emit(vu.Ev{"op": "done", "files": s.snapshot()})
 	s.stats.rewrites++
@@ -243,7 +505,25 @@ func (s *c12sSeg) expire(o c12sOp) {
 	s.rec.Emit(vu.Ev{"op": "expire", "nodes": c12sInts(o.Nodes)})
 }
 
-// this mechanism writes ONE cpuset to every BE cgroup: a script applies iff every target is uniform and non-empty
+func (s *c12sSeg) external(o c12sOp) {
+	if len(o.To) != len(s.par) {
+		s.t.Fatalf("c12s: external has %d values for %d nodes", len(o.To), len(s.par))
+	}
+	for i := range s.par {
+		s.put(i, o.To[i])
+	}
+	s.kernelEffective()
+	s.rec.Emit(vu.Ev{"op": "external", "to": o.To, "files": s.snapshot()})
+	s.stats.externals++
+}
+
+func (s *c12sSeg) restart() {
+	s.newPlugin()
+	s.rec.Emit(vu.Ev{"op": "restart"})
+	s.stats.restarts++
+}
+
+// the BE mechanisms write ONE cpuset to every BE cgroup: a script applies iff every target is uniform and non-empty
 func c12sApplicable(script []c12sOp) bool {
 	if len(script) == 0 || script[0].Op != "reset" || script[0].Kind != "cpuset" {
 		return false
@@ -267,8 +547,8 @@ func c12sApplicable(script []c12sOp) bool {
 	return true
 }
 
-func c12sRun(t *testing.T, rec *vu.Recorder, stats *c12sStats, script []c12sOp, idx int) {
-	s := &c12sSeg{t: t, rec: rec, stats: stats}
+func c12sRun(t *testing.T, rec *vu.Recorder, env *c12sEnv, stats *c12sStats, script []c12sOp, idx int) {
+	s := &c12sSeg{t: t, rec: rec, env: env, stats: stats}
 	defer func() {
 		if s.stop != nil {
 			close(s.stop)
@@ -282,12 +562,18 @@ func c12sRun(t *testing.T, rec *vu.Recorder, stats *c12sStats, script []c12sOp, 
 			s.begin(o)
 		case "expire":
 			s.expire(o)
+		case "external":
+			s.external(o)
+		case "restart":
+			s.restart()
 		case "call", "done":
 		default:
 			t.Fatalf("c12s: unknown op %q", o.Op)
 		}
 	}
 }
+
+// ---------------------------------------------------------------- input generation (no judging here)
 
 func c12sDepth(par []int, n int) int {
 	d := 1
@@ -298,10 +584,54 @@ func c12sDepth(par []int, n int) int {
 	return d
 }
 
+func c12sUniform(par []int, v []int) [][]int {
+	out := make([][]int, len(par))
+	for i := range out {
+		out[i] = c12sInts(v)
+	}
+	return out
+}
+
+// a hierarchy-valid assignment drawn top-down inside `pool`; `near` (may be nil) is kept per node with probability 1/2 where it fits
+func c12sRandAssign(rng *rand.Rand, par []int, pool []int, uniform bool, near [][]int) [][]int {
+	out := make([][]int, len(par))
+	for i := range par {
+		out[i] = []int{}
+		from := pool
+		if par[i] != 0 {
+			from = out[par[i]-1]
+		}
+		if near != nil && rng.Intn(2) == 0 {
+			in := map[int]bool{}
+			for _, c := range from {
+				in[c] = true
+			}
+			ok := true
+			for _, c := range near[i] {
+				ok = ok && in[c]
+			}
+			if ok {
+				out[i] = c12sInts(append([]int{}, near[i]...))
+				continue
+			}
+		}
+		for _, c := range from {
+			if par[i] == 0 {
+				if rng.Intn(3) > 0 {
+					out[i] = append(out[i], c)
+				}
+			} else if uniform || rng.Intn(4) > 0 {
+				out[i] = append(out[i], c)
+			}
+		}
+	}
+	return out
+}
+
 func c12sRandom(rng *rand.Rand) []c12sOp {
 	var par []int
 	for par == nil {
-		n := 1 + rng.Intn(4)
+		n := 1 + rng.Intn(5)
 		par = make([]int, n)
 		for i := 1; i < n; i++ {
 			par[i] = 1 + rng.Intn(i)
@@ -311,43 +641,60 @@ func c12sRandom(rng *rand.Rand) []c12sOp {
 			}
 		}
 	}
-	old := make([][]int, len(par))
-	uniform := rng.Intn(2) == 0
-	for i := range par {
-		old[i] = []int{}
-		if par[i] == 0 {
-			for c := 0; c < 4; c++ {
-				if rng.Intn(3) > 0 {
-					old[i] = append(old[i], c)
-				}
-			}
-			continue
-		}
-		for _, c := range old[par[i]-1] {
-			if uniform || rng.Intn(4) > 0 {
-				old[i] = append(old[i], c)
-			}
-		}
+	ncpu := 4
+	if rng.Intn(3) == 0 {
+		ncpu = 8
 	}
-	script := []c12sOp{{Op: "reset", Par: par, Kind: "cpuset", Ver: 1 + rng.Intn(2), Old: old}}
-	for r, nr := 0, 1+rng.Intn(3); r < nr; r++ {
-		var cpus []int
-		for len(cpus) == 0 {
-			for c := 0; c < 4; c++ {
-				if rng.Intn(2) == 0 {
-					cpus = append(cpus, c)
+	pool := c12sRange(ncpu)
+	var old [][]int
+	switch rng.Intn(4) {
+	case 0: // the state a node is in before the first suppress: every BE cgroup holds the pool
+		old = c12sUniform(par, pool)
+	default:
+		old = c12sRandAssign(rng, par, pool, rng.Intn(2) == 0, nil)
+	}
+	script := []c12sOp{{Op: "reset", Par: par, Kind: "cpuset", Ver: 1 + rng.Intn(2), NCPU: ncpu, Old: old}}
+	cur := old // what the generator believes the files hold (steers the generation only)
+	rounds := 0
+	for st, nst := 0, 1+rng.Intn(7); st < nst || rounds == 0; st++ {
+		switch x := rng.Intn(20); {
+		case x < 10: // a cpuset round
+			var cpus []int
+			for len(cpus) == 0 || (len(cpus) == 1 && rng.Intn(4) > 0) {
+				cpus = nil
+				for c := 0; c < ncpu; c++ {
+					if rng.Intn(2) == 0 {
+						cpus = append(cpus, c)
+					}
 				}
 			}
-		}
-		if rng.Intn(5) == 0 && len(old[0]) > 0 && r == 0 {
-			cpus = old[0] // nothing to do for the files that already hold it
-		}
-		tgt := make([][]int, len(par))
-		for i := range tgt {
-			tgt[i] = cpus
-		}
-		script = append(script, c12sOp{Op: "begin", Target: tgt})
-		if r+1 < nr && rng.Intn(2) == 0 {
+			if rng.Intn(6) == 0 && len(cur[0]) > 0 {
+				cpus = cur[0] // the BE root already holds it: nothing to do for the files that hold it too
+			}
+			script = append(script, c12sOp{Op: "begin", Target: c12sUniform(par, cpus)})
+			cur = c12sUniform(par, cpus)
+			rounds++
+		case x < 14: // a round that leaves the cpuset policy: every BE cgroup back to the pool
+			how := []string{"disabled", "cfsquota", "becpumgr"}[rng.Intn(3)]
+			script = append(script, c12sOp{Op: "begin", Target: c12sUniform(par, pool), How: how, Q: 1 + rng.Intn(ncpu)})
+			cur = c12sUniform(par, pool)
+			rounds++
+		case x < 17: // something else rewrote the files; the executor no longer remembers the files that changed (or restarted)
+			to := c12sRandAssign(rng, par, pool, rng.Intn(2) == 0, cur)
+			script = append(script, c12sOp{Op: "external", To: to})
+			if rng.Intn(3) == 0 {
+				script = append(script, c12sOp{Op: "restart"})
+			} else {
+				var nodes []int
+				for i := range par {
+					if fmt.Sprint(c12sInts(to[i])) != fmt.Sprint(c12sInts(cur[i])) || rng.Intn(4) == 0 {
+						nodes = append(nodes, i+1)
+					}
+				}
+				script = append(script, c12sOp{Op: "expire", Nodes: nodes})
+			}
+			cur = to
+		case x < 19:
 			var nodes []int
 			for i := range par {
 				if rng.Intn(2) == 0 {
@@ -355,15 +702,69 @@ func c12sRandom(rng *rand.Rand) []c12sOp {
 				}
 			}
 			script = append(script, c12sOp{Op: "expire", Nodes: nodes})
+		default:
+			script = append(script, c12sOp{Op: "restart"})
 		}
 	}
 	return script
+}
+
+// hand-picked histories: suppress - leave the cpuset policy (every way) - suppress again, on the tree of a node with two pods
+func c12sCorners() [][]c12sOp {
+	var out [][]c12sOp
+	par := []int{0, 1, 2, 1, 4}
+	for ver := 1; ver <= 2; ver++ {
+		for _, how := range []string{"disabled", "cfsquota", "becpumgr"} {
+			pool := c12sRange(8)
+			out = append(out, []c12sOp{
+				{Op: "reset", Par: par, Kind: "cpuset", Ver: ver, NCPU: 8, Old: c12sUniform(par, pool)},
+				{Op: "begin", Target: c12sUniform(par, []int{0, 1})},
+				{Op: "begin", Target: c12sUniform(par, pool), How: how, Q: 3},
+				{Op: "begin", Target: c12sUniform(par, []int{0, 1, 2})},
+				{Op: "begin", Target: c12sUniform(par, pool), How: how, Q: 3},
+				{Op: "begin", Target: c12sUniform(par, pool), How: how, Q: 3},
+				{Op: "begin", Target: c12sUniform(par, []int{4, 5})},
+			})
+		}
+		// suppress - something else widens the cgroups again (entries expired / agent restarted) - suppress
+		for _, restart := range []bool{false, true} {
+			pool := c12sRange(4)
+			sc := []c12sOp{
+				{Op: "reset", Par: par, Kind: "cpuset", Ver: ver, NCPU: 4, Old: c12sUniform(par, pool)},
+				{Op: "begin", Target: c12sUniform(par, []int{0, 1})},
+				{Op: "external", To: [][]int{pool, pool, {0, 1}, {0, 1, 2}, {0, 1, 2}}},
+			}
+			if restart {
+				sc = append(sc, c12sOp{Op: "restart"})
+			} else {
+				sc = append(sc, c12sOp{Op: "expire", Nodes: []int{1, 2, 4, 5}})
+			}
+			sc = append(sc, c12sOp{Op: "begin", Target: c12sUniform(par, []int{1, 2})}, c12sOp{Op: "begin", Target: c12sUniform(par, pool)})
+			out = append(out, sc)
+		}
+		// the cpuset policy is not in use and something else narrows cgroups BELOW the BE root, which keeps the pool; the next
+		// round (still not the cpuset policy) has them to recover
+		for _, how := range []string{"disabled", "cfsquota", "becpumgr"} {
+			pool := c12sRange(4)
+			out = append(out, []c12sOp{
+				{Op: "reset", Par: par, Kind: "cpuset", Ver: ver, NCPU: 4, Old: c12sUniform(par, []int{2, 3})},
+				{Op: "begin", Target: c12sUniform(par, pool), How: how},
+				{Op: "external", To: [][]int{pool, {0, 1}, {0}, pool, {1, 2, 3}}},
+				{Op: "expire", Nodes: []int{2, 3, 5}},
+				{Op: "begin", Target: c12sUniform(par, pool), How: how},
+				{Op: "begin", Target: c12sUniform(par, []int{0, 3})},
+			})
+		}
+	}
+	return out
 }
 
 func TestVerifC12Suppress(t *testing.T) {
 	if !vu.Enabled() {
 		t.Skip("verification harness: VERIF_OUT not set")
 	}
+	klog.LogToStderr(false)
+	klog.SetOutput(io.Discard)
 	helper := system.NewFileTestUtil(t)
 	defer helper.Cleanup()
 	// truncating writes cost ~2ms each on the disk-backed /tmp of this image: keep the mock cgroup root in memory
@@ -371,6 +772,7 @@ func TestVerifC12Suppress(t *testing.T) {
 		defer os.RemoveAll(d)
 		system.Conf.CgroupRootDir = d
 	}
+	env := c12sNewEnv(t)
 	rec := vu.NewRecorder("")
 	defer rec.Close()
 	stats := &c12sStats{}
@@ -394,20 +796,24 @@ func TestVerifC12Suppress(t *testing.T) {
 		if !c12sApplicable(script) {
 			continue
 		}
-		c12sRun(t, rec, stats, script, idx)
+		c12sRun(t, rec, env, stats, script, idx)
 		idx++
 	}
 	if vu.ReplayPath() == "" {
-		n := vu.EnvInt("VERIF_C12_RANDOM", 600)
+		for i, sc := range c12sCorners() {
+			c12sRun(t, rec, env, stats, sc, i)
+		}
+		n := vu.EnvInt("VERIF_C12_RANDOM", 700)
 		if vu.Thorough() {
 			n = vu.EnvInt("VERIF_C12_RANDOM", 8000)
 		}
 		rng := vu.Rand(1212)
 		for i := 0; i < n; i++ {
-			c12sRun(t, rec, stats, c12sRandom(rng), i)
+			c12sRun(t, rec, env, stats, c12sRandom(rng), i)
 		}
 		// inputs only: what the code wrote is for TLC to judge
-		if stats.calls == 0 || stats.sameNodes == 0 || stats.nonUniformOld == 0 {
+		if stats.calls == 0 || stats.sameNodes == 0 || stats.nonUniformOld == 0 || stats.viaRound == 0 || stats.leave == 0 ||
+			stats.afterLeave == 0 || stats.externals == 0 || stats.restarts == 0 {
 			t.Fatalf("c12s: vacuous run %+v", *stats)
 		}
 	}
